@@ -62,7 +62,30 @@ var c15Variants = []c15Variant{{"SCRAM-SHA-256", "", ""}, {"SCRAM-SHA-1", "", "s
 	{"SCRAM-SHA-256", "", "smtp"}, {"SCRAM-SHA-1", "", ""}, {"SCRAM-SHA-256-PLUS", "1.2", ""}, {"SCRAM-SHA-1-PLUS", "1.3", "smtp"}, {"SCRAM-SHA-256-PLUS", "1.3", ""}, {"SCRAM-SHA-1-PLUS", "1.2", "smtp"}}
 
 // the histories of Prime: variants and the (smaller) alphabet their scripts are enumerated over
-var c15PrimedAlphabet = []string{"first-ok", "final-ok", "final-lastconn", "final-prev", "empty", "235", "hangup"}
+var c15PrimedAlphabet = []string{"first-ok", "final-ok", "final-lastconn", "final-prev", "empty", "235", "hangup", "final-emptypw"}
+
+// long scripts: only messages a client answers without ending the exchange, five to seven of
+// them in a row (a server that keeps the exchange alive and never proves anything)
+var c15LongAlphabet = []string{"empty", "first-ok", "first-ok-ext"}
+
+func c15LongCount() int { return 243 + 729 + 2187 }
+
+func c15LongUnrank(k int) []string {
+	n := 5
+	for _, c := range []int{243, 729, 2187} {
+		if k < c {
+			break
+		}
+		k -= c
+		n++
+	}
+	s := make([]string, n)
+	for j := n - 1; j >= 0; j-- {
+		s[j] = c15LongAlphabet[k%3]
+		k /= 3
+	}
+	return s
+}
 
 var c15Primed = []struct {
 	mech, tls, via, prime string
@@ -74,6 +97,10 @@ var c15Primed = []struct {
 	// (WithSMTPAuthCustom(smtp.ScramSHA256Auth(..))): one smtp.Auth value serves both connections,
 	// so whatever it keeps from the recorded exchange is still in it when the adversary speaks
 	{"SCRAM-SHA-256", "", "", "same-custom", false}, {"SCRAM-SHA-1", "", "", "same-custom", false},
+	// "unprep": the caller's own smtp.Auth value holds a password that cannot be prepared (a
+	// control character); a first attempt with it has failed on an earlier connection, the
+	// judged one is the second attempt with the same value. No path may end in success.
+	{"SCRAM-SHA-256", "", "", "unprep", true}, {"SCRAM-SHA-1", "", "", "unprep", true},
 }
 
 func c15Count(depth int) int {
@@ -118,7 +145,14 @@ func (p *c15) Gen(seed uint64, i int, tier string) (any, bool) {
 		perP := nAlpha + nAlpha*nAlpha + nAlpha*nAlpha*nAlpha
 		pv := j / perP
 		if pv >= len(c15Primed) {
-			return nil, false
+			// long scripts
+			l := j - perP*len(c15Primed)
+			lv := l / c15LongCount()
+			if lv >= 2 {
+				return nil, false
+			}
+			v := []c15Variant{{"SCRAM-SHA-256", "", ""}, {"SCRAM-SHA-1", "", "smtp"}}[lv]
+			return &C15Scenario{Mech: v.mech, Via: v.via, Script: c15LongUnrank(l % c15LongCount()), Sched: sim.Derive(seed, 15, uint64(i))}, true
 		}
 		k := j % perP
 		var script []string
@@ -157,11 +191,14 @@ func (p *c15) Exec(t *testing.T, scAny any) Outcome {
 	cfg := ClientCfg{TLSPolicy: "none", AuthType: sc.Mech, User: "user-c15", Pass: "correct horse battery staple"}
 	srv := refsmtpd.Config{Caps: []string{"8BITMIME", authCaps(allMechs...)},
 		Auth: refsmtpd.AuthCfg{User: "user-c15", Pass: "correct horse battery staple", Salt: []byte("NaCl-c15-salt"), Iter: 8, NonceSuffix: "SrvNonceC15", Adversary: sc.Script}}
-	if sc.Prime != "" {
+	if sc.Prime != "" && sc.Prime != "unprep" {
 		srv.Auth.AdversaryFromConn = 2
 	}
-	if sc.Prime == "same-custom" {
+	if sc.Prime == "same-custom" || sc.Prime == "unprep" {
 		cfg.AuthType = "CUSTOM-" + sc.Mech
+	}
+	if sc.Prime == "unprep" {
+		cfg.Pass = "a password with a line feed\n"
 	}
 	if plus {
 		cfg.TLSPolicy = "mandatory"
@@ -174,7 +211,17 @@ func (p *c15) Exec(t *testing.T, scAny any) Outcome {
 		env = &NetEnv{K: k, Srv: refsmtpd.New(k, srv, TLSMat), Host: cfg.host()}
 		return func() {
 			var primed *mail.Client
-			if sc.Prime != "" {
+			if sc.Prime == "unprep" {
+				pc, err := BuildClient(cfg, env.Dial, nil)
+				if err != nil {
+					out.Infra = err.Error()
+					return
+				}
+				if err := pc.DialWithContext(context.Background()); err == nil {
+					_ = pc.Close()
+				}
+				primed = pc
+			} else if sc.Prime != "" {
 				// the earlier, honest session (the account's password is the right one there)
 				pc, err := BuildClient(cfg, env.Dial, nil)
 				if err != nil {
@@ -190,7 +237,7 @@ func (p *c15) Exec(t *testing.T, scAny any) Outcome {
 					primed = pc
 				}
 			}
-			if sc.WrongPw {
+			if sc.WrongPw && sc.Prime != "unprep" {
 				cfg.Pass = "not the password of this account"
 			}
 			if sc.Via == "smtp" {
@@ -272,6 +319,10 @@ func (p *c15) Exec(t *testing.T, scAny any) Outcome {
 		return out
 	}
 	tr := traces[0]
+	if sc.Prime == "unprep" {
+		tr = traces[len(traces)-1] // the second attempt is the judged one
+		out.stat("probe.unprep.attempts", len(traces))
+	}
 	if sc.WrongPw {
 		// computed with the account's password: not valid for a client that holds another one
 		for i := range tr {
